@@ -196,12 +196,11 @@ def run_lines(binp, lines, extra_env=None, label="", timeout=1800):
     n = len(lines)
     if n == 0: return []
     k = min(NPROC, max(1, n // 200))
-    size = (n + k - 1) // k
     tmp = os.path.join(CACHE, "work", "run-%d-%s" % (os.getpid(), label))
     os.makedirs(tmp, exist_ok=True)
     procs = []
     for c in range(k):
-        chunk = lines[c*size:(c+1)*size]
+        chunk = lines[c::k]          # round-robin: long and short lines are spread over the workers
         fin = os.path.join(tmp, "in%d" % c); fout = os.path.join(tmp, "out%d" % c)
         with open(fin, "w") as f: f.write("\n".join(chunk) + "\n")
         env = dict(ENV)
@@ -209,7 +208,7 @@ def run_lines(binp, lines, extra_env=None, label="", timeout=1800):
         env["VERIF_HANG_FILE"] = os.path.join(tmp, "hang%d" % c)
         env["VERIF_STATS_FILE"] = os.path.join(tmp, "stats%d" % c)
         procs.append((subprocess.Popen("ulimit -s unlimited 2>/dev/null; exec %s < %s > %s" % (binp, fin, fout), shell=True, env=env), len(chunk), fout, c))
-    outs, stats = [], []
+    outs, stats = [None] * n, []
     for p, cnt, fout, c in procs:
         try:
             p.wait(timeout=timeout)
@@ -222,12 +221,12 @@ def run_lines(binp, lines, extra_env=None, label="", timeout=1800):
         if os.path.exists(hang) and len([x for x in o if x is not None]) < cnt:
             idx = len([x for x in o if x is not None])
             o[idx] = "(timeout)"
-        outs.extend(o)
+        outs[c::k] = o
         sf = os.path.join(tmp, "stats%d" % c)
         if os.path.exists(sf):
             for l in open(sf):
                 a = l.split()
-                if len(a) == 3: stats.append((c * size + int(a[0]) - 1, int(a[1]), int(a[2])))
+                if len(a) == 3: stats.append((c + (int(a[0]) - 1) * k, int(a[1]), int(a[2])))
     shutil.rmtree(tmp, ignore_errors=True)
     return outs, stats
 
